@@ -166,12 +166,23 @@ class ManWorld:
     def _fault(self, d):
         if self.mode == "blackout":
             return []
+        if self.mode == "slowconnect":
+            # no ping gets through at all, and the first p requests of each handshake step are lost
+            if d.verb == "APING":
+                return []
+            if d.dir == "c2s" and d.verb in ("AVERS", "CURCH", "SFILE"):
+                n = self._slow.get(d.verb, 0)
+                if n < self.p:
+                    self._slow[d.verb] = n + 1
+                    return []
+            return None
         if self.mode == "lossy" and self.r.random() < self.p:
             return []
         return None
 
     def set_phase(self, ph: Phase):
         self.mode, self.p = ph.mode, ph.p
+        self._slow = {}
         self.sim.up = ph.mode != "absent"
         self.sim.sim._do_rferr = ph.mode == "rferr"
         if ph.mode == "absent":
